@@ -25,7 +25,8 @@ FOREIGN = [("description", "string"), ("Name", "string"), ("NAME", "string"), ("
            ("names", "string"), ("Version", "string"), ("VERSION", "string"), ("version\u200b", "string"), ("x", "uint8"), ("n\u0430me", "string")]
 FOREIGN = FOREIGN + [(w, t) for w in VOCAB_FIELD_NAMES if w not in dict(F) for t in ("string", "bytes32")][::2]
 SUBST = ["bytes", "bytes31", "bytes32", "uint", "uint255", "uint256", "uint8", "int256", "string", "string[]", "address", "address[1]", "bool",
-         "Foo", "bytes32[]", "uint256[]", "String", "bytes1"]
+         "Foo", "bytes32[]", "uint256[]", "String", "bytes1", "int", "byte", "address payable", "uint 256", "UINT256", "Uint256", "bytes32 ", "str", "bytes0", "bytes33",
+         "uint0", "uint264", "uint256[1]", "contract", "hash", "fixed", "ufixed128x18", "function", "tuple", "number", "integer"]
 
 
 def judge(case, obs):
@@ -62,22 +63,32 @@ def shards(tier, seed):
             {"name": "repetition-1", "part": 1, "parts": 4}, {"name": "repetition-2", "part": 2, "parts": 4},
             {"name": "repetition-3", "part": 3, "parts": 4},
             {"name": "foreign", "reps": 12 if T else 1, "exhaustive": "a foreign member inserted at every position of every legal domain type"},
-            {"name": "substitutions", "reps": 12 if T else 1, "exhaustive": "every standard field x 18 type substitutions, alone and inside every legal domain"},
+            {"name": "substitutions", "reps": 12 if T else 1, "exhaustive": "every standard field x 41 type substitutions (values of the substituted type and of the standard type), alone and inside every legal domain"},
             {"name": "misc", "reps": 100 if T else 4}]
 
 
-def _doc(rng, members, cls, shown=None, domain_override=None, drop_domain_type=False, extra_types=None):
-    types = {"EIP712Domain": list(members), "P": [("x", "uint8"), ("s", "string")], "Foo": [("a", "bool")], "String": [], "uint": [("v", "uint8")]}
+def _doc(rng, members, cls, shown=None, domain_override=None, drop_domain_type=False, extra_types=None, standard_values=False):
+    """standard_values: the substituted type names are NOT defined as structs and every standard field carries a value of its
+    *standard* type - the document a user would write who believes `uint` / `String` / `bytes` is just another spelling. A tool that
+    maps such a name onto the standard type accepts exactly this form (and refuses the struct-valued one)."""
+    types = {"EIP712Domain": list(members), "P": [("x", "uint8"), ("s", "string")]}
+    if not standard_values:
+        types.update({"Foo": [("a", "bool")], "String": [], "uint": [("v", "uint8")]})
     if extra_types:
         types.update(extra_types)
-    for _, ts in members:
-        r = eip712.struct_ref(ts)
-        if r and r not in types:
-            types[r] = [("v", "uint8")]
+    if not standard_values:
+        for _, ts in members:
+            r = eip712.struct_ref(ts)
+            if r and r not in types:
+                types[r] = [("v", "uint8")]
     # a domain value that conforms to whatever was declared (duplicates collapse to one key)
     dom = {}
+    std = dict(F)
     for mn, ts in members:
-        dom[mn] = tdgen.rand_value_tree(rng, types, ts, 2, tdgen.Budget(10))
+        if standard_values:
+            dom[mn] = tdgen.rand_value_tree(rng, types, std.get(mn, "string"), 2, tdgen.Budget(10))
+        else:
+            dom[mn] = tdgen.rand_value_tree(rng, types, ts, 2, tdgen.Budget(10))
     if domain_override:
         domain_override(dom)
     t = dict(types)
@@ -147,6 +158,10 @@ def gen(shard, rng, tier):
                     dom = rng.choice([d for d in tdgen.domain_subsets() if (fn, ft) in d])
                     m = [(n, sub if n == fn else t) for n, t in dom]
                     yield from both(_doc(rng, m, _cls_of(m)))
+                    if sub != ft:
+                        # the same declarations with the values of the standard types and no struct behind an alias-like name
+                        yield from both(_doc(rng, [(fn, sub)], _cls_of([(fn, sub)]), standard_values=True))
+                        yield from both(_doc(rng, m, _cls_of(m), standard_values=True))
     else:
         for _ in range(shard["reps"]):
             for dom in tdgen.domain_subsets():
